@@ -186,3 +186,180 @@ Proof.
       rewrite pairs_join in P by (try assumption; apply len2_ne, Ht).
       cbn [map concat]. rewrite <- P. rewrite !app_assoc. apply Permutation_app_tail, Permutation_app_comm.
 Qed.
+
+(** ** the closing phase of a step *)
+Definition aphase (q : list pt) (rest : list (list pt)) (D : list ring) (v : pt) : astate :=
+  match aclose rest (q ++ [v]) with
+  | Some (ring, rest') => (rest', D ++ [ring])
+  | None => ((q ++ [v]) :: rest, D)
+  end.
+
+Lemma last_cons_default {A} (t : A) (B : list A) d : last (t :: B) d = last B t.
+Proof.
+  destruct B as [| b B]; [reflexivity |]. rewrite last_cons_ne by discriminate.
+  apply last_nonempty_default. discriminate.
+Qed.
+
+Lemma last_app_r {A} (X Y : list A) d : Y <> [] -> last (X ++ Y) d = last Y d.
+Proof.
+  intro H. destruct (snoc_cases Y) as [-> | [Y' [z ->]]]; [congruence |].
+  rewrite app_assoc, !last_last. reflexivity.
+Qed.
+
+Lemma chain_mid X : forall q1 R, X <> [] -> chain (X ++ q1 :: R) ->
+  last q1 dp = hd dp (last X []) /\ chain (q1 :: R).
+Proof.
+  induction X as [| x X IH]; intros q1 R Hne Hc; [congruence |].
+  destruct X as [| y X].
+  - cbn [app] in Hc. cbn [chain] in Hc. cbn [last]. exact Hc.
+  - change ((x :: y :: X) ++ q1 :: R) with (x :: (y :: X) ++ q1 :: R) in Hc.
+    apply chain_tail in Hc. rewrite last_cons_ne by discriminate. apply IH; [discriminate | exact Hc].
+Qed.
+
+Lemma NoDup_app_disjoint {A} (X Y : list A) a : NoDup (X ++ Y) -> In a X -> ~ In a Y.
+Proof.
+  induction X as [| x X IH]; intros ND Hin; [destruct Hin |].
+  cbn [app] in ND. inversion ND as [| ? ? Hn Hd]; subst. destruct Hin as [-> | Hin].
+  - intro HY. apply Hn. apply in_or_app. right. exact HY.
+  - apply IH; assumption.
+Qed.
+
+Lemma NoDup_app_r {A} (X Y : list A) : NoDup (X ++ Y) -> NoDup Y.
+Proof. induction X as [| x X IH]; intro ND; [exact ND |]. inversion ND; subst. apply IH. assumption. Qed.
+
+Lemma NoDup_app_l {A} (X Y : list A) : NoDup (X ++ Y) -> NoDup X.
+Proof.
+  induction X as [| x X IH]; intro ND; [constructor |]. cbn [app] in ND. inversion ND as [| ? ? Hn Hd]; subst.
+  constructor; [| apply IH, Hd]. intro H. apply Hn. apply in_or_app. left. exact H.
+Qed.
+
+Lemma last_In {A} (l : list A) d : l <> [] -> In (last l d) l.
+Proof.
+  intro H. destruct (snoc_cases l) as [-> | [l' [z ->]]]; [congruence |].
+  rewrite last_last. apply in_or_app. right. left. reflexivity.
+Qed.
+
+Section Phase.
+  Variables (r0 vprev v : pt) (q : list pt) (rest : list (list pt)) (D : list ring).
+  Hypothesis Hinv : ainv r0 vprev (q :: rest).
+
+  Let t := q ++ [v].
+
+  Lemma ph_q : q <> [].
+  Proof. pose proof (a_ne _ _ _ Hinv) as H. inversion H; assumption. Qed.
+
+  Lemma ph_rest : Forall (fun q => q <> []) rest.
+  Proof. pose proof (a_ne _ _ _ Hinv) as H. inversion H; assumption. Qed.
+
+  Lemma ph_t2 : (2 <= length t)%nat.
+  Proof.
+    unfold t. rewrite app_length. pose proof ph_q as H. cbn [length].
+    assert (length q <> 0)%nat by (intro E; apply length_zero_iff_nil in E; congruence). lia.
+  Qed.
+
+  Lemma ph_hdt : hd dp t = hd dp q.
+  Proof. apply hd_app, ph_q. Qed.
+
+  Lemma ph_lastt : last t dp = v.
+  Proof. apply last_snoc. Qed.
+
+  Lemma ph_chain_t : chain (t :: rest).
+  Proof. apply (chain_replace_hd _ q); [apply ph_hdt | apply (a_chain _ _ _ Hinv)]. Qed.
+
+  Lemma phase_cases K2 D2 (Hph : aphase q rest D v = (K2, D2)) :
+    (exists ring B, aclose rest t = Some (ring, K2) /\ D2 = D ++ [ring] /\ rest = B ++ K2 /\
+                    hd dp (last B q) = v /\ ring <> []) \/
+    (aclose rest t = None /\ K2 = t :: rest /\ D2 = D /\ hd dp q <> v /\ Forall (fun q => hd dp q <> v) rest).
+  Proof.
+    unfold aphase in Hph. fold t in Hph. destruct (aclose rest t) as [[ring rest'] |] eqn:E.
+    - left. inversion Hph; subst. exists ring.
+      destruct (aclose_some _ _ _ _ ph_t2 ph_rest E) as [B [E1 [E2 E3]]].
+      exists B. repeat split; try assumption; try reflexivity.
+      rewrite ph_lastt in E2. destruct B as [| b B]; [cbn [last] in *; rewrite <- ph_hdt; exact E2 |].
+      rewrite (last_nonempty_default (b :: B) q t) by discriminate. exact E2.
+    - right. inversion Hph; subst. destruct (aclose_none _ _ ph_rest E) as [H1 H2].
+      rewrite ph_lastt in H1, H2. rewrite ph_hdt in H1. repeat split; try reflexivity; [exact H1 |].
+      apply H2, ph_t2.
+  Qed.
+
+  Lemma phase_ne K2 D2 (Hph : aphase q rest D v = (K2, D2)) : Forall (fun q => q <> []) K2.
+  Proof.
+    destruct (phase_cases K2 D2 Hph) as [[ring [B [_ [_ [E _]]]]] | [_ [-> _]]].
+    - pose proof ph_rest as H. rewrite E in H. apply Forall_app in H. apply H.
+    - constructor; [apply len2_ne, ph_t2 | apply ph_rest].
+  Qed.
+
+  Lemma phase_chain K2 D2 (Hph : aphase q rest D v = (K2, D2)) : chain ([v] :: K2).
+  Proof.
+    destruct (phase_cases K2 D2 Hph) as [[ring [B [_ [_ [E [Hh _]]]]]] | [_ [-> _]]].
+    - destruct K2 as [| q1 R]; [exact I |].
+      pose proof (a_chain _ _ _ Hinv) as Hc. rewrite E in Hc.
+      change (q :: B ++ q1 :: R) with ((q :: B) ++ q1 :: R) in Hc.
+      apply chain_mid in Hc; [| discriminate]. destruct Hc as [H1 H2].
+      rewrite last_cons_default in H1. cbn [chain]. split; [cbn [hd]; congruence | exact H2].
+    - apply chain_cons; [apply ph_lastt | apply ph_chain_t].
+  Qed.
+
+  Lemma phase_bottom K2 D2 (Hph : aphase q rest D v = (K2, D2)) : K2 <> [] -> hd dp (last K2 []) = r0.
+  Proof.
+    intro Hne. pose proof (a_bottom _ _ _ Hinv) as Hb. pose proof ph_hdt as Hh.
+    destruct (phase_cases K2 D2 Hph) as [[ring [B [_ [_ [E _]]]]] | [_ [E _]]].
+    - rewrite E in Hb. change (q :: B ++ K2) with ((q :: B) ++ K2) in Hb.
+      rewrite last_app_r in Hb by exact Hne. exact Hb.
+    - rewrite E. destruct rest as [| q1 R]; [cbn [last] in *; rewrite Hh; exact Hb |].
+      rewrite last_cons_ne in * by discriminate. exact Hb.
+  Qed.
+
+  Lemma phase_empty K2 D2 (Hph : aphase q rest D v = (K2, D2)) : K2 = [] -> v = r0.
+  Proof.
+    intro E0. pose proof (a_bottom _ _ _ Hinv) as Hb.
+    destruct (phase_cases K2 D2 Hph) as [[ring [B [_ [_ [E [Hh _]]]]]] | [_ [E _]]]; [| congruence].
+    rewrite E, E0, app_nil_r, last_cons_default in Hb. congruence.
+  Qed.
+
+  Lemma phase_nodup K2 D2 (Hph : aphase q rest D v = (K2, D2)) : NoDup (map (hd dp) ([v] :: K2)).
+  Proof.
+    pose proof (a_nodup _ _ _ Hinv) as ND.
+    destruct (phase_cases K2 D2 Hph) as [[ring [B [_ [_ [E [Hh _]]]]]] | [_ [E [_ [H1 H2]]]]].
+    - rewrite E in ND. change (q :: B ++ K2) with ((q :: B) ++ K2) in ND. rewrite map_app in ND.
+      cbn [map hd]. constructor; [| apply (NoDup_app_r _ _ ND)].
+      apply (NoDup_app_disjoint _ _ _ ND). rewrite <- Hh. apply in_map.
+      rewrite <- last_cons_default with (d := []). apply last_In. discriminate.
+    - rewrite E. cbn [map hd]. rewrite ph_hdt. constructor; [| exact ND].
+      intros [Hq | Hr]; [congruence |]. rewrite Forall_forall in H2.
+      apply in_map_iff in Hr. destruct Hr as [x [Hx Hin]]. apply (H2 x Hin). exact Hx.
+  Qed.
+
+  Lemma phase_closing K2 D2 (Hph : aphase q rest D v = (K2, D2)) : v = r0 -> K2 = [].
+  Proof.
+    intro Ev. pose proof (a_nodup _ _ _ Hinv) as ND. pose proof (a_bottom _ _ _ Hinv) as Hb.
+    destruct (phase_cases K2 D2 Hph) as [[ring [B [_ [_ [E [Hh _]]]]]] | [_ [E [_ [H1 H2]]]]].
+    - destruct K2 as [| q1 R] eqn:EK; [reflexivity |]. exfalso.
+      rewrite E in ND, Hb. change (q :: B ++ q1 :: R) with ((q :: B) ++ q1 :: R) in ND, Hb.
+      rewrite last_app_r in Hb by discriminate. rewrite map_app in ND.
+      apply (NoDup_app_disjoint _ _ v ND).
+      + rewrite <- Hh. apply in_map. rewrite <- last_cons_default with (d := []). apply last_In. discriminate.
+      + rewrite Ev, <- Hb. apply in_map. apply last_In. discriminate.
+    - exfalso. destruct rest as [| q1 R].
+      + cbn [last] in Hb. congruence.
+      + rewrite last_cons_ne in Hb by discriminate. rewrite Forall_forall in H2.
+        apply (H2 (last (q1 :: R) [])); [apply last_In; discriminate | congruence].
+  Qed.
+
+  Lemma phase_edges K2 D2 (Hph : aphase q rest D v = (K2, D2)) :
+    Permutation (concat (map pairs K2) ++ concat (map dedges D2))
+                ((concat (map pairs (q :: rest)) ++ concat (map dedges D)) ++ [(last q dp, v)]).
+  Proof.
+    destruct (phase_cases K2 D2 Hph) as [[ring [B [Ha [-> _]]]] | [_ [-> [-> _]]]].
+    - pose proof (aclose_edges _ _ _ _ ph_t2 ph_rest ph_chain_t Ha) as P.
+      unfold t in P. rewrite pairs_snoc1 in P by apply ph_q.
+      clear Hph. perm_count.
+    - cbn [map concat]. unfold t. rewrite pairs_snoc1 by apply ph_q. clear Hph. perm_count.
+  Qed.
+
+  Lemma phase_done_ne K2 D2 (Hph : aphase q rest D v = (K2, D2)) : Forall (fun ring : ring => ring <> []) D -> Forall (fun ring : ring => ring <> []) D2.
+  Proof.
+    intro H. destruct (phase_cases K2 D2 Hph) as [[ring [B [_ [-> [_ [_ Hr]]]]]] | [_ [_ [-> _]]]]; [| exact H].
+    apply Forall_app. split; [exact H | constructor; [exact Hr | constructor]].
+  Qed.
+End Phase.
